@@ -67,31 +67,49 @@ theorem shapesOk_iff (norm : Norm) (A X W : Mat ℝ) (b : Option (List ℝ)) :
   unfold Spec.shapesOk
   cases b <;> cases norm <;> simp [and_assoc]
 
-/-- two containers with the same denotation: same shape, same entries -/
-def SameEntries (A A' : Mat ℝ) : Prop := A.r = A'.r ∧ A.c = A'.c ∧ ∀ i j, A.get i j = A'.get i j
+/-- two matrices with the same denotation: same shape, same entries inside the shape (what lies outside the shape
+of a `Mat` is never read) -/
+def SameEntries (A A' : Mat ℝ) : Prop :=
+  A.r = A'.r ∧ A.c = A'.c ∧ ∀ i j, i < A.r → j < A.c → A.get i j = A'.get i j
 
-theorem SameEntries.refl (A : Mat ℝ) : SameEntries A A := ⟨rfl, rfl, fun _ _ => rfl⟩
+theorem SameEntries.refl (A : Mat ℝ) : SameEntries A A := ⟨rfl, rfl, fun _ _ _ _ => rfl⟩
+
+theorem SameEntries.tabulated (A : Mat ℝ) : SameEntries A (mk' A.r A.c fun i j => A.get i j) :=
+  ⟨rfl, rfl, fun _ _ hi hj => (get_mk'_of_lt _ hi hj).symm⟩
 
 theorem matmul_congr {A A' B B' : Mat ℝ} (hA : SameEntries A A') (hB : SameEntries B B') :
     matmul A B = matmul A' B' := by
   obtain ⟨hAr, hAc, hA⟩ := hA
   obtain ⟨hBr, hBc, hB⟩ := hB
-  have hgA : A.get = A'.get := funext fun i => funext fun j => hA i j
-  have hgB : B.get = B'.get := funext fun i => funext fun j => hB i j
   unfold matmul
-  simp only [hAr, hAc, hgA, hBr, hBc, hgB]
+  rw [← hAr, ← hAc, ← hBr, ← hBc]
+  by_cases h : A.c = B.r
+  · rw [if_neg (not_not.mpr h), if_neg (not_not.mpr h)]
+    congr 1
+    apply mk'_congr
+    intro i hi k hk
+    apply sumTo_congr
+    intro j hj
+    rw [hA i j hi hj, hB j k (h ▸ hj) hk]
+  · rw [if_pos h, if_pos h]
 
 theorem rowSums_congr {A A' : Mat ℝ} (hA : SameEntries A A') : rowSums A = rowSums A' := by
   obtain ⟨hAr, hAc, hA⟩ := hA
-  have hgA : A.get = A'.get := funext fun i => funext fun j => hA i j
   unfold rowSums
-  simp only [hAr, hAc, hgA]
+  rw [← hAr, ← hAc]
+  apply tab_congr
+  intro i hi
+  apply sumTo_congr
+  intro j hj
+  exact hA i j hi hj
 
 theorem addSelfLoops_congr {A A' : Mat ℝ} (hA : SameEntries A A') : addSelfLoops A = addSelfLoops A' := by
   obtain ⟨hAr, hAc, hA⟩ := hA
-  have hgA : A.get = A'.get := funext fun i => funext fun j => hA i j
   unfold addSelfLoops
-  simp only [hAr, hAc, hgA]
+  rw [← hAr, ← hAc]
+  apply mk'_congr
+  intro i hi j hj
+  rw [hA i j hi hj]
 
 theorem normalize_congr (norm : Norm) {A A' : Mat ℝ} (hA : SameEntries A A') :
     (∃ e, Gnn.normalize norm A = .error e ∧ Gnn.normalize norm A' = .error e) ∨
@@ -113,6 +131,85 @@ theorem normalize_congr (norm : Norm) {A A' : Mat ℝ} (hA : SameEntries A A') :
     cases h : Gnn.normalize norm A' with
     | error e => left; exact ⟨e, rfl, rfl⟩
     | ok M => right; exact ⟨M, M, rfl, rfl, SameEntries.refl M⟩
+
+/-- the layer reads its three matrices only through shape and entries -/
+theorem forward_congr (cfg : LayerCfg) {A A' X X' W W' : Mat ℝ} (b : Option (List ℝ))
+    (hA : SameEntries A A') (hX : SameEntries X X') (hW : SameEntries W W') :
+    forward cfg A X W b = forward cfg A' X' W' b := by
+  unfold forward
+  simp only [bind, Except.bind]
+  rcases normalize_congr cfg.norm hA with ⟨e, h1, h2⟩ | ⟨M, M', h1, h2, hM⟩
+  · rw [h1, h2]
+  · rw [h1, h2]
+    simp only []
+    have h2' : SameEntries (if cfg.selfEmb then addSelfLoops M else M) (if cfg.selfEmb then addSelfLoops M' else M') := by
+      cases cfg.selfEmb with
+      | false => simpa using hM
+      | true =>
+        simp only [if_true]
+        rw [addSelfLoops_congr hM]
+        exact SameEntries.refl _
+    rw [matmul_congr h2' hX]
+    cases hm : matmul (if cfg.selfEmb then addSelfLoops M' else M') X' with
+    | error e => rfl
+    | ok msg =>
+      simp only []
+      rw [matmul_congr (SameEntries.refl msg) hW]
+
+/-- **either the shapes fit and the layer returns a value, or they do not and it raises `ValueError`** -/
+theorem forward_cases (cfg : LayerCfg) (A X W : Mat ℝ) (b : Option (List ℝ)) :
+    (Spec.shapesOk cfg.norm A X W b = true ∧ ∃ O, forward cfg A X W b = .ok O) ∨
+      (Spec.shapesOk cfg.norm A X W b = false ∧ forward cfg A X W b = .error .valueError) := by
+  have hno : ∀ {P : Prop}, ¬ P → (Spec.shapesOk cfg.norm A X W b = true → P) → Spec.shapesOk cfg.norm A X W b = false := by
+    intro P hnp himp
+    cases h : Spec.shapesOk cfg.norm A X W b with
+    | false => rfl
+    | true => exact absurd (himp h) hnp
+  unfold forward
+  simp only [bind, Except.bind, pure, Except.pure]
+  rcases normalize_cases cfg.norm A with ⟨hsq, A1, hA1, hr1, hc1⟩ | ⟨hnsq, herr⟩
+  · rw [hA1]
+    simp only []
+    have hA2c : (if cfg.selfEmb then addSelfLoops A1 else A1).c = A.c := by
+      cases cfg.selfEmb <;> simp [addSelfLoops, hc1]
+    rcases matmul_cases (if cfg.selfEmb then addSelfLoops A1 else A1) X with ⟨h1, M1, hM1, _, hM1c⟩ | ⟨h1, herr1⟩
+    · rw [hM1]
+      simp only []
+      rw [hA2c] at h1
+      rcases matmul_cases M1 W with ⟨h2, M2, hM2, _, hM2c⟩ | ⟨h2, herr2⟩
+      · rw [hM2]
+        simp only []
+        rw [hM1c] at h2
+        cases b with
+        | none =>
+          simp only []
+          left
+          exact ⟨(shapesOk_iff _ _ _ _ _).mpr ⟨h1, h2, fun _ h => (by cases h), hsq⟩, _, rfl⟩
+        | some bl =>
+          simp only [addBias]
+          by_cases hbl : bl.length = W.c
+          · rw [if_neg (by rw [hM2c]; exact not_not.mpr hbl)]
+            simp only []
+            left
+            exact ⟨(shapesOk_iff _ _ _ _ _).mpr ⟨h1, h2, fun bl' h => (by cases h; exact hbl), hsq⟩, _, rfl⟩
+          · rw [if_pos (by rw [hM2c]; exact hbl)]
+            simp only []
+            right
+            exact ⟨hno hbl fun h => ((shapesOk_iff _ _ _ _ _).mp h).2.2.1 bl rfl, trivial⟩
+      · rw [herr2]
+        simp only []
+        rw [hM1c] at h2
+        right
+        exact ⟨hno h2 fun h => ((shapesOk_iff _ _ _ _ _).mp h).2.1, trivial⟩
+    · rw [herr1]
+      simp only []
+      rw [hA2c] at h1
+      right
+      exact ⟨hno h1 fun h => ((shapesOk_iff _ _ _ _ _).mp h).1, trivial⟩
+  · rw [herr]
+    simp only []
+    right
+    exact ⟨hno hnsq fun h => ((shapesOk_iff _ _ _ _ _).mp h).2.2.2, trivial⟩
 
 theorem pinv_mul_self (x : ℝ) (hx : x ≠ 0) : pinv x * x = 1 := by
   unfold pinv
@@ -137,17 +234,11 @@ theorem csrToMat_perm (m m' : Csr ℝ) (hr : m.nRow = m'.nRow) (hc : m.nCol = m'
     (h : ∀ i, i < m.nRow → (csrEntries m i).Perm (csrEntries m' i)) :
     SameEntries (csrToMat m) (csrToMat m') := by
   refine ⟨hr, hc, ?_⟩
-  intro i j
-  by_cases hij : i < m.nRow ∧ j < m.nCol
-  · rw [csrToMat_get m i j hij.1 hij.2, csrToMat_get m' i j (hr ▸ hij.1) (hc ▸ hij.2)]
-    exact ((h i hij.1).map _).sum_eq
-  · have h1 : (csrToMat m).get i j = 0 := by
-      unfold csrToMat
-      rw [get_mk', if_neg hij]
-    have h2 : (csrToMat m').get i j = 0 := by
-      unfold csrToMat
-      rw [get_mk', if_neg (by rw [← hr, ← hc]; exact hij)]
-    rw [h1, h2]
+  intro i j hi hj
+  have hi' : i < m.nRow := hi
+  have hj' : j < m.nCol := hj
+  rw [csrToMat_get m i j hi' hj', csrToMat_get m' i j (hr ▸ hi') (hc ▸ hj')]
+  exact ((h i hi').map _).sum_eq
 
 /-- splitting a stored value into two stored halves (un-summed duplicates) does not change the entry -/
 theorem duplicate_entries_sum (j c : Nat) (v : ℝ) (rest : List (Nat × ℝ)) :
